@@ -1668,6 +1668,12 @@ def mx_after_contract(r, a, b, ax_a, ax_b):
     if len(ax_a) != 1:
         return
     i, j = ax_a[0], ax_b[0]
+    if a.ndim == 2 and b.ndim == 2 and (i, j) == (1, 0) and 'expm_of' in a.tags and 'expm_of' in b.tags:
+        # exp(c1 G) exp(c2 G) = exp((c1 + c2) G) for one and the same generator G
+        sa, sb = a.tags['expm_of'].tags.get('scale'), b.tags['expm_of'].tags.get('scale')
+        if sa is not None and sb is not None and sa[1] is sb[1]:
+            ga = a.tags['expm_of']
+            r.tags['expm_of'] = Arr(ga.shape, ga.legs, join_dtype(ga.dt, b.tags['expm_of'].dt), None, {'scale': (sa[0] + sb[0], sa[1])}, 'mul', parents=(sa[1],))
     if a.ndim == 2 and b.ndim == 2:
         ma = _mx.of(a) if i == 1 else _mx.T(_mx.of(a))
         mb = _mx.of(b) if j == 0 else _mx.T(_mx.of(b))
